@@ -4,6 +4,7 @@ import (
 	"encoding/json"
 	"fmt"
 	"os"
+	"strconv"
 	"strings"
 
 	"golang.org/x/tools/go/ssa"
@@ -85,6 +86,16 @@ func e2Skeleton(ns []*e2Node) string {
 		switch n.kind {
 		case "slot":
 			w := n.w
+			if strings.HasPrefix(w, "var(const:") && strings.HasSuffix(w, ")") {
+				// a constant width written symbolically (a read into a make([]T, 16) local): var(const:16) is 16
+				if _, err := strconv.Atoi(w[len("var(const:") : len(w)-1]); err == nil {
+					w = w[len("var(const:") : len(w)-1]
+				}
+			}
+			if k, _, ok := clampSlot(w + "~cut(var)"); ok && strings.Contains(n.x, "cut(") {
+				p = append(p, "( "+k+" | var )")
+				continue
+			}
 			if strings.HasPrefix(w, "var") {
 				w = "var"
 			}
